@@ -78,7 +78,7 @@ func (m *topkRedis) Exec(op Tok) (opOut Tok, obs Tok) {
 	inv := TL(TNu(9))
 	switch a[0].I() {
 	case tkNew:
-		er, acc := float64(a[3].U())/1e6, float64(a[4].U())/1e6
+		er, acc := nudge(float64(a[3].U())/1e6, a, 5), nudge(float64(a[4].U())/1e6, a, 6)
 		ertxt := strconv.FormatFloat(er, 'f', -1, 64)
 		acctxt := strconv.FormatFloat(acc, 'f', -1, 64)
 		// predicted form for the case that construction panics (nil sketch): dimensions 0
@@ -104,7 +104,7 @@ func (m *topkRedis) Exec(op Tok) (opOut Tok, obs Tok) {
 			return opOut, inv
 		}
 		m.skOracle(t, a[2].B)
-		if err := t.Insert(a[2].B, a[3].U()); err != nil {
+		if err := t.Insert(el(a[2].B), a[3].U()); err != nil {
 			return opOut, TErr(errGeneric)
 		}
 		return opOut, TOk(TUnit())
